@@ -493,7 +493,7 @@ func (g *caseGen) one() {
 		q := g.relatedQ()
 		g.qs = append(g.qs, q)
 		flags := vlib.Pick(r, []string{"-", "-", "-", "-", "e", "d", "b", "w", "bw", "ed"})
-		mark := vlib.Pick(r, []string{"none", "none", "none", "work", "attempt", "probe", "maxrec", "canceled", "deadline", "other", "w:attempt", "w:deadline", "else:work", "else:canceled"})
+		mark := vlib.Pick(r, []string{"none", "none", "none", "work", "attempt", "probe", "shed", "w:shed", "maxrec", "canceled", "deadline", "other", "w:attempt", "w:deadline", "else:work", "else:canceled"})
 		class := vlib.Pick(r, []string{"servfail", "servfail", "refused", "useful", "nxdomain"})
 		g.out("fail write %s %s %s %d %d %s", flags, mark, q, g.step(), r.Intn(3), class)
 		g.out("fail lookup %s %d", q, g.t)
@@ -594,7 +594,7 @@ func (g *caseGen) alias2() {
 	}
 	q.t, q.c, q.scope = 1, 1, "-"
 	g.qs = append(g.qs, q)
-	outs := []string{"local:attempt", "local:attempt", "local:work", "local:deadline", "local:canceled", "local:maxrec", "local:probe", "err:attempt", "servfail", "refused", "local:other", "ok"}
+	outs := []string{"local:attempt", "local:attempt", "local:work", "local:deadline", "local:canceled", "local:maxrec", "local:probe", "local:shed", "err:attempt", "servfail", "refused", "local:other", "ok"}
 	n := 1 + r.Intn(3)
 	for i := 0; i < n; i++ {
 		g.out("fail alias %s %d %s %s %d %s", hexName(q.name), q.c, vlib.B(q.cd), vlib.B(r.Bool()), g.step(), vlib.Pick(r, outs))
@@ -614,7 +614,7 @@ func (g *caseGen) serve() {
 	}
 	g.qs = append(g.qs, q)
 	key := fmt.Sprintf("%s %d %d %s", hexName(q.name), q.t, q.c, vlib.B(q.cd))
-	outs := []string{"servfail", "servfail", "refused", "nxdomain", "useful", "local:work", "local:attempt", "local:probe", "local:maxrec", "local:canceled", "local:deadline", "local:other"}
+	outs := []string{"servfail", "servfail", "refused", "nxdomain", "useful", "local:work", "local:attempt", "local:probe", "local:shed", "local:maxrec", "local:canceled", "local:deadline", "local:other"}
 	n := 2 + r.Intn(4)
 	for i := 0; i < n; i++ {
 		g.out("fail serve %s %s %d %s", key, vlib.B(r.Bool()), g.step(), vlib.Pick(r, outs))
@@ -725,6 +725,15 @@ func genL3(r *vlib.R, tier string, emit func(string), n *int) {
 		emit(fmt.Sprintf("fail l3zone %s %d", strings.Join(spec, ","), 150+r.Intn(151)))
 		*n--
 	}
+	// load shed at the resolver's own admission is request-local (real load, ~2 s each)
+	if tier == "thorough" {
+		emit("fail l3shed global")
+		emit("fail l3shed zone")
+		*n -= 2
+	} else {
+		emit("fail l3shed " + vlib.Pick(r, []string{"global", "zone"}))
+		*n--
+	}
 	emit("fail l3zone s,r,s,s 0") // control: every server fails, the zone failure may be recorded
 	emit(fmt.Sprintf("fail l3zone f,%s,%s 0", vlib.Pick(r, fails), vlib.Pick(r, fails)))
 	*n -= 2
@@ -741,8 +750,8 @@ func indexOf(xs []string, x string) int {
 
 func genStateless(r *vlib.R, emit func(string), n *int, k int) {
 	flags := []string{"-", "e", "d", "b", "w", "eb", "bw", "dw", "edbw"}
-	marks := []string{"none", "work", "attempt", "probe", "maxrec", "canceled", "deadline", "other", "w:work", "w:attempt", "w:canceled", "w:deadline", "w:other", "else:work", "else:deadline"}
-	causes := []string{"none", "work", "attempt", "probe", "maxrec", "canceled", "deadline", "other", "w:work", "w:attempt", "w:maxrec", "w:canceled", "w:deadline", "w:other"}
+	marks := []string{"none", "work", "attempt", "probe", "shed", "w:shed", "maxrec", "canceled", "deadline", "other", "w:work", "w:attempt", "w:canceled", "w:deadline", "w:other", "else:work", "else:deadline"}
+	causes := []string{"none", "work", "attempt", "probe", "shed", "maxrec", "canceled", "deadline", "other", "w:work", "w:attempt", "w:maxrec", "w:canceled", "w:deadline", "w:other"}
 	for i := 0; i < k; i++ {
 		switch r.Intn(6) {
 		case 0:
